@@ -863,6 +863,9 @@ pub fn insert_foreign_token(rng: &mut Rng, bytes: &mut Vec<u8>) -> usize {
 }
 
 pub fn gen_chunking(rng: &mut Rng) -> Chunking {
+    if rng.chance(1, 25) {
+        return Chunking::Short(1 + rng.below(2));
+    }
     match rng.below(7) {
         0 | 1 => Chunking::Whole,
         2 => Chunking::OneByte,
